@@ -51,6 +51,7 @@ type remoteSigner struct {
 	emptySig  bool
 	signAlg   string // JWS-style name of the algorithm to sign with
 	handed    [][]byte
+	produced  [][]byte
 	calls     int
 	specCalls int
 }
@@ -66,6 +67,9 @@ func (s *remoteSigner) Sign(payload []byte) ([]byte, []*x509.Certificate, error)
 	var sig []byte
 	if !s.emptySig {
 		sig = rawSign(s.signAlg, s.key, payload)
+		s.mu.Lock()
+		s.produced = append(s.produced, sig)
+		s.mu.Unlock()
 	}
 	if s.nilChain {
 		return sig, nil, nil
